@@ -71,7 +71,7 @@ pub enum Act {
     Layout { fallible: bool, size: usize, al: u8 },
     Typed { m: TM, ty: Ty },
     TryWith { fallible: bool, ty: Ty, ok: bool, inner: Inner, probe: bool },
-    Slice { m: SM, el: El, len: usize, fail_at: u8 },
+    Slice { m: SM, el: El, len: usize, fail_at: u8, inner: Inner },
     Str { fallible: bool, len: usize },
     Allocate { size: usize, al: u8 },
     Dealloc { h: u8 },
@@ -1115,6 +1115,7 @@ impl<const M: usize> World<M> {
                     if let Some(addr) = addr {
                         if addr < ka + kn && ka < addr + n {
                             self.v(11, "kept_block_overwritten_later", format!("kept_block_overwritten_later/{what}"), format!("{what}: the initialiser allocated and kept [rel {},+{kn}) and then failed; a following request of {n} bytes was placed at rel {}, on top of it", self.rel(ka), self.rel(addr)));
+                            self.v(1, "overlaps_live_block", format!("overlaps_live_block/after_{what}"), format!("{what}: a block the failed initialiser allocated and kept (rel {}, {kn} bytes) was handed out again at rel {}", self.rel(ka), self.rel(addr)));
                             self.terminal = true;
                             break;
                         }
@@ -1181,7 +1182,7 @@ impl<const M: usize> World<M> {
 // ------------------------------------------------------------------------------------------
 
 impl<const M: usize> World<M> {
-    pub fn do_slice(&mut self, m: SM, el: El, len: usize, fail_at: u8, script: &[Answer], c09_probe: bool) {
+    pub fn do_slice(&mut self, m: SM, el: El, len: usize, fail_at: u8, inner: Inner, script: &[Answer], c09_probe: bool) {
         let what: &'static str = match m {
             SM::Copy => "alloc_slice_copy",
             SM::TryCopy => "try_alloc_slice_copy",
@@ -1223,10 +1224,13 @@ impl<const M: usize> World<M> {
             SM::FillDefault | SM::TryFillDefault => 2,
             _ => 0,
         };
+        let kept_cell: std::cell::Cell<Option<(usize, usize)>> = std::cell::Cell::new(None);
         let call = |b: &Bump<M>, m: SM| -> R {
             with_el!(el, T => {
                 // source data (harness memory)
-                let src: Vec<T> = { let _g = Callback::enter(); (0..len).map(|i| make::<T>(tag, step, i * std::mem::size_of::<T>())).collect() };
+                // huge lengths can never be reserved: no source data (a callback that runs anyway panics on the index)
+                let n_src = if len > (1 << 22) { 0 } else { len };
+                let src: Vec<T> = { let _g = Callback::enter(); (0..n_src).map(|i| make::<T>(tag, step, i * std::mem::size_of::<T>())).collect() };
                 let first: T = make::<T>(tag, step, 0);
                 let res = match m {
                     SM::Copy => { let s = b.alloc_slice_copy(&src); R::Ok(s.as_ptr() as usize, s.len()) }
@@ -1249,7 +1253,23 @@ impl<const M: usize> World<M> {
                     SM::TryFillDefault => match b.try_alloc_slice_fill_default::<Dflt>(len) { Ok(s) => R::Ok(s.as_ptr() as usize, s.len()), Err(_) => R::AllocErr },
                     SM::FillIter => { let it = LoggedIter { i: 0, n: len, f: |i| src[i] }; let s = b.alloc_slice_fill_iter(it); R::Ok(s.as_ptr() as usize, s.len()) }
                     SM::TryFillIter => { let it = LoggedIter { i: 0, n: len, f: |i| src[i] }; match b.try_alloc_slice_fill_iter(it) { Ok(s) => R::Ok(s.as_ptr() as usize, s.len()), Err(_) => R::AllocErr } }
-                    SM::InitTryFillWith => match b.alloc_slice_try_fill_with(len, |i| { let _g = Callback::enter(); log_push(5, i as u64); if Some(i) == fail { Err(make_err(err_id)) } else { Ok(src[i]) } }) { Ok(s) => R::Ok(s.as_ptr() as usize, s.len()), Err(e) => R::InitErr(e) },
+                    SM::InitTryFillWith => match b.alloc_slice_try_fill_with(len, |i| {
+                        let _g = Callback::enter();
+                        log_push(5, i as u64);
+                        if i == 0 && inner != Inner::Nothing {
+                            // the initialiser allocates in the same arena (and keeps or releases the block)
+                            let _r = Reenter::enter();
+                            let l = Layout::from_size_align(24, 1).unwrap();
+                            if let Ok(p) = b.try_alloc_layout(l) {
+                                if inner == Inner::AllocRelease {
+                                    unsafe { b.deallocate(p, l) };
+                                } else {
+                                    kept_cell.set(Some((p.as_ptr() as usize, 24)));
+                                }
+                            }
+                        }
+                        if Some(i) == fail { Err(make_err(err_id)) } else { Ok(src[i]) }
+                    }) { Ok(s) => R::Ok(s.as_ptr() as usize, s.len()), Err(e) => R::InitErr(e) },
                     SM::InitTryFillIter => { let it = LoggedIter { i: 0, n: len, f: |i| if Some(i) == fail { Err(make_err(err_id)) } else { Ok(src[i]) } }; match b.alloc_slice_try_fill_iter(it) { Ok(s) => R::Ok(s.as_ptr() as usize, s.len()), Err(e) => R::InitErr(e) } }
                 };
                 { let _g = Callback::enter(); drop(src); }
@@ -1308,6 +1328,12 @@ impl<const M: usize> World<M> {
             }
             _ => {}
         }
+        let kept = kept_cell.get();
+        if let Some((ka, kn)) = kept {
+            if !self.accept_block("allocation_inside_initialiser", ka, kn, 1, true, None) {
+                self.terminal = true;
+            }
+        }
         let mut err_tok = None;
         match r {
             Ok(R::Ok(a, n)) => {
@@ -1356,7 +1382,23 @@ impl<const M: usize> World<M> {
             if post.cap == pre.cap && !forced_new {
                 self.cov |= cov::REWIND;
             }
-            if self.judge && size_total.is_some() {
+            if let (Some((ka, kn)), true) = (kept, self.judge) {
+                let b = self.bump.take().unwrap();
+                let big = size_total.unwrap_or(0).min(4096) + 40;
+                let r3 = arena_op(envp, self.step, self.arena, &[], || b.try_alloc_layout(Layout::from_size_align(big, 1).unwrap()).map(|p| p.as_ptr() as usize).ok());
+                self.bump = Some(b);
+                if let Ok(Some(addr)) = r3 {
+                    if addr < ka + kn && ka < addr + big {
+                        self.v(11, "kept_block_overwritten_later", format!("kept_block_overwritten_later/{what}"), format!("{what}: the initialiser allocated and kept [rel {},+{kn}) and a later element failed; a following request of {big} bytes was placed at rel {}, on top of it", self.rel(ka), self.rel(addr)));
+                        self.v(1, "overlaps_live_block", format!("overlaps_live_block/after_{what}"), format!("{what}: a block kept by the failed initialiser was handed out again"));
+                    } else {
+                        self.accept_block("allocation_after_failed_init", addr, big, 1, true, None);
+                    }
+                }
+                self.terminal = true;
+                self.cov |= cov::PROBE;
+            }
+            if self.judge && size_total.is_some() && kept.is_none() && inner == Inner::Nothing {
                 // residue probe (the slice initialiser allocates nothing)
                 self.terminal = true;
                 self.cov |= cov::PROBE;
